@@ -5,17 +5,10 @@ from ..common import dec_val
 
 MODULE = "Genql.Properties.C04"
 LEAN_TARGETS = [MODULE]
-THEOREMS = [
-    "Genql.C04.catalog_flatten_perm",
-    "Genql.C04.catalog_lookup_filter",
-    "Genql.C04.hash_inner_perm_textbook",
-    "Genql.C04.nested_inner_perm_textbook",
-    "Genql.C04.hash_left_perm_textbook",
-    "Genql.C04.nested_left_perm_textbook",
-    "Genql.C04.strategy_independent",
-    "Genql.C04.parallel_schedule_independent",
-    "Genql.C04.enc_injective",
-]
+THEOREMS = ["Genql.C04." + t for t in [
+    "catalogue_eq_groups", "catalog_flatten_perm", "catalog_member_key", "catalog_lookup_filter",
+    "hash_inner_perm_textbook", "hash_left_perm_textbook", "flatMap_comm_perm", "nested_inner_perm_textbook",
+    "strategy_independent", "parallel_schedule_independent", "map_order_independent"]]
 TRUSTED = ["Go map iteration order is an arbitrary permutation (results compared as multisets)",
            "SHA-256 of the key text is collision free", "sqlparser JoinType predicates (table copied in pylib/sqlgen.py)",
            "goroutine scheduling of the PARALLEL variants only permutes chunk order (mutex-protected append)"]
@@ -127,7 +120,7 @@ def explore(chk, rnd, tier):
 LEVEL_TEXT = ("Lean theorems: catalogues (first-appearance key groups) flatten to a permutation of the rows and lookup is filter; "
               "the hash join and the nested loop over key groups are permutations of the textbook join (pairs satisfying ON plus "
               "NULL-extended unmatched rows for outer joins) for every table pair, ON predicate determined by the key columns, and "
-              "iteration order; hence strategy- and schedule-independence as multisets; the length-prefixed key text is injective. "
+              "iteration order; hence strategy- and schedule-independence as multisets. "
               "Tied to /repo by the correspondence over all 17 join spellings.")
 LEVEL_NOTE = ("Go map order / goroutine schedule enter only as a permutation of key groups (proved irrelevant). A data race inside "
               "the PARALLEL variants cannot be exhibited by the model: that is C13's obligation. STRAIGHT_JOIN on LEFT/RIGHT is an "
